@@ -22,7 +22,8 @@ def gen_ts(r, grid, prec, hostile=False):
         return {'kind': 'poll', 'seq': [r.choice(pool) for _ in range(r.randint(2, 5))]}
     if k < 0.6:
         return {'kind': 'const', 'v': r.choice(pool)}
-    return {'kind': 'indexed', 'seq': [r.choice(pool) for _ in range(r.randint(2, 4))]}
+    # 'param': as 'indexed', but through the default calculate_timestep and a parameter the process changes
+    return {'kind': 'indexed' if k < 0.9 else 'param', 'seq': [r.choice(pool) for _ in range(r.randint(2, 4))]}
 
 
 def gen_calls(r, grid, prec, maxcalls=6, end_with_update=True, zero=False):
@@ -71,7 +72,7 @@ def build(spec, engine_cls=None, emitter=None, extra_steps=None, extra_topology=
     for p in spec['procs']:
         pid = p['pid']
         params = {'pid': pid, 'ts': p['ts'], 'cond': p.get('cond'), 'toggle': p.get('toggle', 0),
-                  'amount': p.get('amount', 1), 'timestep': 1.0}
+                  'amount': p.get('amount', 1), 'amount2': p.get('amount2'), 'timestep': 1.0}
         if p.get('fail_at') is not None:
             params['fail_at'] = p['fail_at']
         if p.get('cond_path'):
@@ -80,7 +81,12 @@ def build(spec, engine_cls=None, emitter=None, extra_steps=None, extra_topology=
         if p.get('parallel'):
             params['_parallel'] = True
         name = 'p%d' % pid
-        procs[name] = Ledger(params)
+        if p['ts']['kind'] == 'param':
+            from vmon.sensors import LedgerP
+            params['timestep'] = p['ts']['seq'][0]
+            procs[name] = LedgerP(params)
+        else:
+            procs[name] = Ledger(params)
         topo[name] = {
             'log': ('log',),
             'own': ('own', name),
@@ -88,6 +94,8 @@ def build(spec, engine_cls=None, emitter=None, extra_steps=None, extra_topology=
             'clock': ('clock', name),
             'flag': ('flag',),
         }
+        if p.get('amount2'):
+            topo[name]['acc2'] = topo[name]['acc']
     steps = dict(extra_steps or {})
     topo.update(extra_topology or {})
     flow = dict(extra_flow or {})
